@@ -211,7 +211,10 @@ func (g *gen) emitDec(kind string, in []byte, ex expect) {
 	hf, bf := parseFormats(in)
 	cs.Nontrivial = hf != nil && bf != nil
 	cs.Key = hex.EncodeToString(in)
-	if !g.c.OracleOnly && r.panicked == "" && !r.timeout {
+	if r.noTables {
+		g.c.Note("no model case for %s input %s…: a harness-side parser call did not return in the child process", kind, hx(in)[:min(24, 2*len(in))])
+	}
+	if !g.c.OracleOnly && r.panicked == "" && !r.timeout && !r.noTables {
 		e := g.w.envFor(in, r)
 		resetIntern()
 		obs := "None"
@@ -240,7 +243,7 @@ func (g *gen) emitEnc(h *honest) {
 		}
 	}
 	cs.OracleErr = msg
-	if !g.c.OracleOnly && r != nil && r.panicked == "" && !r.timeout {
+	if !g.c.OracleOnly && r != nil && r.panicked == "" && !r.timeout && !r.noTables {
 		e := g.w.envFor(in, r)
 		e.addH(h.hb)
 		resetIntern()
@@ -859,6 +862,47 @@ func corpusFiles(dir string) [][]byte {
 	return out
 }
 
+// BTP digest bytes that do not parse: cut short, inner lists that declare more than their
+// parent holds, wrong item kinds — with and without the result committing to them
+func (g *gen) genDigestForms() {
+	r := g.c.Rand
+	for i := 0; i < g.c.N(24); i++ {
+		a := g.pick()
+		h, b := cpH(a.hf), cpB(a.bf)
+		var d []byte
+		var what string
+		base := digestWith(r, int64(r.Intn(200)), int64(r.Intn(200)))
+		switch i % 6 {
+		case 0:
+			d = base[:len(base)-1-r.Intn(len(base)-2)]
+			what = "digest cut short"
+		case 1:
+			ntd := append([]byte{0xe7, 0x01, 0x83, 'e', 't', 'h', 0xa0}, randBytes(r, 32)...)
+			ntd = append(ntd, 0xc0+byte(1+r.Intn(20)))
+			d = rlpList(rlpList(ntd))
+			what = "network digest list declares more than its parent holds"
+		case 2:
+			d = rlpList(rlpList(rlpList(rlpItem(int64(1)), rlpStr([]byte("eth")), rlpStr(randBytes(r, 32)), rlpList([]byte{1}))))
+			what = "network digest is not a list"
+		case 3:
+			d = rlpList(rlpStr(randBytes(r, 5)))
+			what = "network type digests is a string"
+		case 4:
+			d = randBytes(r, 1+r.Intn(40))
+			what = "random digest bytes"
+		case 5:
+			d = []byte{}
+			what = "empty digest bytes"
+		}
+		if r.Intn(2) == 0 {
+			h.Result = resultWith(r, sha(d), nil)
+			what += ", committed by the result"
+		}
+		b.BTPDigest = d
+		g.emitDec("digest_malformed", enc(h, b), expect{Comment: a.label + ": " + what})
+	}
+}
+
 // the defect found while building this check: a negative network id in the digest
 func (g *gen) genNegativeNID() {
 	r := g.c.Rand
@@ -1028,6 +1072,7 @@ func genAll(c *hxlib.Ctx) {
 	g.genRawForms()
 	g.genNoise()
 	g.genNegativeNID()
+	g.genDigestForms()
 	if c.Tier == "thorough" && !c.OracleOnly {
 		g.nativeFuzz(90)
 	}
@@ -1048,6 +1093,10 @@ func replay(raw json.RawMessage) string {
 }
 
 func main() {
+	if len(os.Args) > 1 && os.Args[1] == "worker" {
+		workerMain()
+		return
+	}
 	hxlib.Main(hxlib.Spec{
 		ID: "C08",
 		Rule: "blocks of two fixture chains (one node with a BTP network, messages and 0-5 transactions per block; four validators with commit vote lists of 0-4 items) are marshalled (MarshalHeader+MarshalBody) and decoded by BlockDataFactory.NewBlockDataFromReader; " +
